@@ -15,6 +15,9 @@ Obligations:
   execute-split-raw      (symx) every raw command line of <= N characters over {a b SP TAB ' "} that is well-formed
                                 (each token bare or fully quoted) is split exactly at unquoted whitespace
                                 (oracle: independent 25-line reference splitter)
+
+Failure classes seen on the unchanged tree (keys): C45/str-escape/backslash-sequence (parse() unescapes what quote()
+never escaped) and C45/lexer/tab-expanded (pyparsing expands TABs to spaces before lexing, also inside quotes).
 """
 import ast
 import functools
@@ -232,9 +235,9 @@ def h_single(X, N, alpha):
 
 
 ARGS_Q = ["a", "", "a b", "'", '"', "'\" ", "\t#\u00e9"]
-ARGS_T = ARGS_Q + [" ", "\n", "a'b c", "\r\n", "b\""]
+ARGS_T = ARGS_Q + [" ", "\n", "a'b c"]
 WS_Q = [" ", "\t", " \t "]
-WS_T = WS_Q + ["\n", "\r\n", "  "]
+WS_T = WS_Q + ["\n", "\r\n"]
 
 
 def h_split_quoted(X, K, args_menu, ws_menu):
@@ -320,13 +323,13 @@ def obligations(tier):
         Smt("escape-regex-vs-quote", _build_smt, bounds="all strings (unbounded) over Unicode; escape_sequences regex, quote()'s replace() literals and "
             "the lexer's character sets lifted from the current source", encoded=["mitmproxy.types:_StrType.parse", "mitmproxy.command_lexer:quote"]),
         Chx("str-roundtrip", CHXFILE, "check_roundtrip", bounds="all strings of <= 3 code points (symbolic, traced through quote/unquote/_StrType.parse)",
-            encoded=ENCODED[:2] + ENCODED[-2:], timeout=40, twin="twin_roundtrip", keyfn=_chx_key),
+            encoded=ENCODED[:2] + ENCODED[-2:], timeout=150, twin="twin_roundtrip", keyfn=_chx_key),
         Chx("str-roundtrip-no-backslash", CHXFILE, "check_roundtrip_no_backslash", bounds="all strings of <= 3 code points without a backslash",
-            encoded=ENCODED[:2] + ENCODED[-2:], timeout=40, twin="twin_roundtrip_no_backslash"),
+            encoded=ENCODED[:2] + ENCODED[-2:], timeout=150, twin="twin_roundtrip_no_backslash"),
         Chx("quote-one-token", CHXFILE, "check_quote_is_one_token", bounds="all strings of <= 3 code points: quote(s) is a bare word or one closed quoted string",
-            encoded=ENCODED[:1], timeout=40, twin="twin_quote_is_one_token"),
+            encoded=ENCODED[:1], timeout=150, twin="twin_quote_is_one_token"),
         Chx("unquote-quote", CHXFILE, "check_unquote_quote", bounds="all strings of <= 3 code points not containing both quote characters",
-            encoded=ENCODED[:2], timeout=40, twin="twin_unquote_quote"),
+            encoded=ENCODED[:2], timeout=150, twin="twin_unquote_quote"),
         Symx("execute-single-arg", lambda X: h_single(X, n1, alpha), bounds=f"every string of <= {n1} characters over the {len(alpha)}-symbol alphabet {alpha!r}, "
              "quoted with quote(), through the real CommandManager.execute", encoded=ENCODED, must_reach=["delivered", "backslash", "both-quotes"], parallel_depth=2),
         Symx("execute-split-quoted", lambda X: h_split_quoted(X, k, am, wm), bounds=f"<= {k} arguments from a {len(am)}-entry menu {am!r} x whitespace runs {wm!r} x trailing whitespace",
